@@ -121,6 +121,10 @@ func (f *RequiredField) DoRead(r io.ReadSeeker, pg Page) (io.Reader, []int, erro
 			return nil, nil, err
 		}
 
+		if err := supportedDataPage(ph); err != nil {
+			return nil, nil, err
+		}
+
 		sizes = append(sizes, int(ph.DataPageHeader.NumValues))
 
 		data, err := pageData(r, ph, pg)
@@ -285,6 +289,18 @@ func (f *OptionalField) DoRead(r io.ReadSeeker, pg Page) (io.Reader, []int, erro
 			return nil, nil, err
 		}
 
+		if err := supportedDataPage(ph); err != nil {
+			return nil, nil, err
+		}
+
+		if ph.DataPageHeader.DefinitionLevelEncoding != sch.Encoding_RLE {
+			return nil, nil, fmt.Errorf("unsupported definition level encoding: %s", ph.DataPageHeader.DefinitionLevelEncoding)
+		}
+
+		if f.repeated && ph.DataPageHeader.RepetitionLevelEncoding != sch.Encoding_RLE {
+			return nil, nil, fmt.Errorf("unsupported repetition level encoding: %s", ph.DataPageHeader.RepetitionLevelEncoding)
+		}
+
 		data, err := pageData(rc, ph, pg)
 		if err != nil {
 			return nil, nil, err
@@ -353,6 +369,19 @@ func (r *readCounter) Read(p []byte) (int, error) {
 	n, err := r.r.Read(p)
 	r.n += int64(n)
 	return n, err
+}
+
+// supportedDataPage returns an error for every page the reader does not
+// implement: anything but a v1 data page with PLAIN encoded values.
+func supportedDataPage(ph *sch.PageHeader) error {
+	if ph.Type != sch.PageType_DATA_PAGE || ph.DataPageHeader == nil {
+		return fmt.Errorf("unsupported page type: %s", ph.Type)
+	}
+
+	if ph.DataPageHeader.Encoding != sch.Encoding_PLAIN {
+		return fmt.Errorf("unsupported encoding: %s", ph.DataPageHeader.Encoding)
+	}
+	return nil
 }
 
 func pageData(r io.Reader, ph *sch.PageHeader, pg Page) ([]byte, error) {
